@@ -354,3 +354,8 @@ def run(ctx):
         ctx.ob("R-C10.6", mt6, "fully-flushed-keyspace-does-not-pin-journals", ok6,
                "a watermark whose keyspace has nothing in any memtable is satisfied without looking at its tables" if ok6
                else "a keyspace whose memtables are empty but whose tables lag behind the watermark (clear, empty flush result, compaction dropping the newest tombstone) blocks the eviction forever: every later journal piles up behind it (journal count never returns to one)")
+
+    # ---- borrowed obligations (mechanisms owned by other properties that this property's verdict also rests on)
+    # journal maintenance trusts is_deleted: the flag is raised only after the deletion is durable
+    ctx.borrow("C12", ["R-C12.1"], "R-C10.7")
+
